@@ -108,11 +108,34 @@
   (m) the audit, row by row.  `AuditRun` packages what the walk through `auditResponse` starts from
       (`auditRun_exists`: every request whose scan reaches a TSIG record has one; `audit_eq_of_run`:
       its audit is `auditResponse` on the model's view).  `C10_audit_nofit`: row 4 (the reply TSIG does
-      not fit), whatever the outcome — the audit returns no tag.
+      not fit), whatever the outcome — the audit returns no tag.  `audit_rejected_core`: row 1 (rejected,
+      the reply fits) — every clause of the audit holds, the MAC of the signed BADTIME reply being a
+      hypothesis; `C10_audit_rejected_unsigned`: so the audit returns no tag for BADKEY / FORMERR /
+      BADSIG (`Proofs/AuditDecoded.decoded_nodata_tsig`: the no-data response with its TSIG record
+      decoded; `labelsOf_of_lower`: the decoded owner has the key name's labels up to case;
+      `stopReply_cases`: the reply mode per outcome).
+
+  Recorded correction of the *oracle* (`Spec.ServerTsig.audit`): the clause "answered normally"
+  compares with the response to `stripTsigRr req`, which decrements ARCOUNT (octets 10–11).  The name
+  decoder follows compression pointers to any earlier offset, the header included, so ARCOUNT can be
+  part of a name the server decodes, and stripping the TSIG RR then changes what is asked:
+    · QNAME = `C0 0B` (pointer to octet 11), ARCOUNT 1 (the TSIG RR): signed, octet 11 = 1 and the
+      QNAME is the label `C0`, then an 11-octet label (QTYPE, QCLASS and the first 7 octets of the TSIG
+      owner, key name "abcdef."), then the root; stripped, octet 11 = 0 and the QNAME is the root.
+      With a root zone loaded: NXDOMAIN signed, NOERROR plain — the old audit said
+      `answer-header-differs`;
+    · OPT owner = `C0 0B` with ARCOUNT 256 (octet 11 = 0: the root); stripped, ARCOUNT 255, octet 11 =
+      `FF` is a pointer to nowhere: REFUSED signed, FORMERR plain.
+  Neither is a server defect ("the same request without its TSIG RR" does not exist).  The audit now
+  makes the comparison only under `plainComparable`: the scan of the stripped request has the same
+  question, EDNS state and UDP limit and ends with the verdict the decision table gives after the TSIG
+  RR (`postVerdict`); otherwise the clause is skipped, all others apply.  Both requests are in
+  corpus/C10 (they pass; the implementation answers them as the model does).
 
   Proved: (a)–(m).  Not proved, precisely:
   (1) `C10_full` itself.  Of the audit, the clauses of `auditResponse` *after* the response is decoded
-      remain for rows 1–3 (row 4 is closed: `C10_audit_nofit`), all of which need first
+      remain for the BADTIME reply of row 1 (its MAC, (1e)) and for rows 2–3 (row 4 is closed:
+      `C10_audit_nofit`; row 1 unsigned: `C10_audit_rejected_unsigned`), all of which need first
       (1a) (closed: `C10_request_view`, (j)) the request-side link: `viewRequest` (the audit's own walk
            to the TSIG RR: `findTsig`, `specDecodeName`, `labelsOf`, `parseRdata`, the request prefix)
            yields the key name, RDATA fields and prefix of the model's `t` / `mw` of the same `TsigRun`;
@@ -161,6 +184,7 @@ import QV.Proofs.RequestFields
 import QV.Proofs.RequestOutcome
 import QV.Proofs.RequestFits
 import QV.Proofs.AuditWalk
+import QV.Proofs.AuditDecoded
 import QV.Proofs.ServerSignedTable
 
 namespace QV.C10
@@ -1214,7 +1238,13 @@ structure AuditRun (cfg : Cfg) (cat : List Spec.Server.ZoneCfg) (tr : Transport)
   hkn : kn.WF
   halg : alg.WF
   hmw : mw = req.extract 0 d.pos
+  hfind : Spec.ServerTsig.findTsig req = some d
+  hcur : r'.cursor = d.next
   ht : t = viewRr kn alg rest
+  h10 : 10 ≤ rest.length
+  hpos : 12 ≤ d.pos
+  hdsz : d.pos ≤ req.size
+  hmsg : MsgOk mw.toList
   hview : Spec.ServerTsig.viewRequest hmSpec (specKeys cfg.keys) req now =
     some ⟨kn.labels, fieldsOf alg.labels rest, mw.toList, modelOutcome cfg.keys nowT kn alg rest mw.toList,
       Spec.ServerTsig.findKey (specKeys cfg.keys) kn.labels⟩
@@ -1231,9 +1261,9 @@ theorem auditRun_exists (cfg : Cfg) (cat : List Spec.Server.ZoneCfg) (tr : Trans
   have hnT : ∃ nowT, TimeSigned.tryFromUnix now = some nowT := by
     unfold TimeSigned.tryFromUnix; rw [if_pos hnow]; exact ⟨_, rfl⟩
   obtain ⟨nowT, hnT⟩ := hnT
-  obtain ⟨t, mw, r', question, d, kn, alg, rest, h1, _, h3, h4, h5, _, h7, h8⟩ :=
-    C10_audit_outcome cfg tr now 65535 req (minBuf_le tr _ hp16) hpay hreq (by rw [← a1]; exact hr) (a2.mp hv) hk nowT hnT
-  exact ⟨nowT, t, mw, r', question, d, kn, alg, rest, hr, hv, hnT, h1, h3, h4, h5, h7, h8⟩
+  obtain ⟨t, mw, r', question, d, kn, alg, rest, h1, h2, h3, h4, h5, h6, h7, h8, h9, h10, h11, h12⟩ :=
+    request_outcome_ext cfg tr now 65535 req (minBuf_le tr _ hp16) hpay hreq (by rw [← a1]; exact hr) (a2.mp hv) hk nowT hnT
+  exact ⟨nowT, t, mw, r', question, d, kn, alg, rest, hr, hv, hnT, h1, h3, h4, h5, h2, h6, h7, h9, h10, h11, h12, h8⟩
 
 open QV.ServerScan in
 /-- the audit of such a request is `auditResponse` on the view -/
@@ -1244,7 +1274,8 @@ theorem audit_eq_of_run {cfg : Cfg} {cat : List Spec.Server.ZoneCfg} {tr : Trans
     Spec.ServerTsig.audit hmSpec cat cfg.payload (specKeys cfg.keys) req now (tr = .udp) r plain =
       Spec.ServerTsig.auditResponse hmSpec (Spec.Server.specScan cat cfg.payload req)
         ⟨kn.labels, fieldsOf alg.labels rest, mw.toList, modelOutcome cfg.keys nowT kn alg rest mw.toList,
-          Spec.ServerTsig.findKey (specKeys cfg.keys) kn.labels⟩ now (tr = .udp) (Spec.Server.hdr req 0) r plain := by
+          Spec.ServerTsig.findKey (specKeys cfg.keys) kn.labels⟩ now (tr = .udp) (Spec.Server.hdr req 0)
+        (Spec.ServerTsig.plainComparable cat cfg.payload req) r plain := by
   unfold Spec.ServerTsig.audit
   simp only [h.respond, h.verdict, h.hview, Bool.not_true, Bool.false_eq_true, if_false, ne_eq, not_true_eq_false]
 
@@ -1285,7 +1316,7 @@ theorem C10_audit_nofit (cfg : Cfg) (cat : List Spec.Server.ZoneCfg) (tr : Trans
   obtain ⟨r1, r2, _, r4, r5, _, r7⟩ := ServerContent.decoded_nofit F _ (qBody_norecs _) hG hts hh b mac hf dm hdm
   obtain ⟨hq1, hq2, hq3⟩ := qBody_norecs (Spec.Server.specScanWith (catKind cfg) cfg.payload req).question
   obtain ⟨_, c2, _, _⟩ := opt_of_good macFn F _ hG (by rw [hq3]; simp) b mac hf dm hdm
-  refine auditResponse_nofit hmSpec _ _ now _ _ b plain dm hdm ?_ r1 r2 ?_ ?_ ?_
+  refine auditResponse_nofit hmSpec _ _ now _ _ _ b plain dm hdm ?_ r1 r2 ?_ ?_ ?_
   · -- does not fit
     rw [auditNeed_eq _ _ iq ie kn alg h.hkn h.halg, auditLimit_eq _ _ il tr]
     rcases hnf with ⟨an, rc, mode, rr, han, hrep, hnfit⟩ | ⟨a, key, ha, hk, hver, hnfit⟩
@@ -1315,6 +1346,148 @@ theorem C10_audit_nofit (cfg : Cfg) (cat : List Spec.Server.ZoneCfg) (tr : Trans
   · -- no TSIG record
     rw [List.filter_eq_nil_iff]
     intro o ho; simp [r7 o ho]
+
+open QV.ServerScan in
+/-- the model's scan of an `AuditRun`: a response is due, and it agrees with the audit's scan on the
+    question, the EDNS state and the UDP limit -/
+theorem AuditRun.scanM {cfg : Cfg} {cat : List Spec.Server.ZoneCfg} {tr : Transport} {now : Nat} {req : Bytes}
+    {nowT : TimeSigned} {t : ReadTsigRr} {mw : Bytes} {r' : Reader.Reader} {question : Option (WName × Nat × Nat)}
+    {d : Spec.Server.Delim} {kn alg : WName} {rest : List UInt8}
+    (h : AuditRun cfg cat tr now req nowT t mw r' question d kn alg rest) :
+    (Spec.Server.specScanWith (catKind cfg) cfg.payload req).respond = true ∧
+    (Spec.Server.specScan cat cfg.payload req).question =
+      (Spec.Server.specScanWith (catKind cfg) cfg.payload req).question ∧
+    (Spec.Server.specScan cat cfg.payload req).edns = (Spec.Server.specScanWith (catKind cfg) cfg.payload req).edns ∧
+    (Spec.Server.specScan cat cfg.payload req).limitUdp =
+      (Spec.Server.specScanWith (catKind cfg) cfg.payload req).limitUdp := by
+  obtain ⟨a1, _⟩ := C10_audit_scan_agrees cfg cat req
+  obtain ⟨_, _, hind⟩ := ServerContent.specScanWith_tsig_indep
+    (fun qn qc => (Spec.Server.specCatalogLookup cat qn qc).map (·.kind)) (catKind cfg) cfg.payload req
+  exact ⟨by rw [← a1]; exact h.respond, hind h.verdict⟩
+
+open QV.ServerScan in
+/-- **audit clauses of a rejected request whose reply fits** (row 1), the MAC of a BADTIME reply being
+    left as a hypothesis (`hsigned`, discharged by `C10_audit_response_mac`): `tsig-missing`,
+    `two-tsig`, `tsig-rdata`, `tsig-not-last`, `tsig-class-ttl`, `key-name`, `alg-name`, `fudge`,
+    `original-id`, `id`, `tsig-error-*`, `rcode-*`, `mac-not-empty`, `badtime-other`,
+    `badtime-time-signed`, `other-data`, `time-signed`, `data-in-unauthenticated`, `tc-in-error`,
+    `aa-in-error` never arise -/
+theorem audit_rejected_core (cfg : Cfg) (cat : List Spec.Server.ZoneCfg) (tr : Transport) (now : Nat) (req : Bytes)
+    (hpay : 512 ≤ cfg.payload) (hp16 : cfg.payload ≤ 65535)
+    {nowT : TimeSigned} {t : ReadTsigRr} {mw : Bytes} {r' : Reader.Reader} {question : Option (WName × Nat × Nat)}
+    {d : Spec.Server.Delim} {kn alg : WName} {rest : List UInt8}
+    (h : AuditRun cfg cat tr now req nowT t mw r' question d kn alg rest)
+    (hrow : ServerContent.RowRejected cfg tr now 65535 req t mw)
+    (b : Bytes) (hb : handleMessage cfg tr now 65535 req = .ok (some b)) (plain : Spec.ServerTsig.Resp)
+    (hsigned : modelOutcome cfg.keys nowT kn alg rest mw.toList = .badTime →
+      ∀ dm restR o rf rkn, Spec.specDecodeMsg b = some dm → dm.ar = restR ++ [o] →
+        Spec.Tsig.parseRdata o.rdata = some rf → Spec.Tsig.labelsOf o.owner = some rkn →
+        rf.mac.length = (Spec.Tsig.outputSizeOf alg.labels).getD 0 ∧
+        ∃ k, Spec.ServerTsig.findKey (specKeys cfg.keys) kn.labels = some k ∧
+          rf.mac = hmSpec k.sha256 k.secret
+            (Spec.Tsig.digestInput .response (b.extract 0 o.pos).toList rf.originalId
+              { keyName := rkn, algName := rf.algName, timeSigned := rf.timeSigned, fudge := rf.fudge,
+                error := rf.error, other := rf.other } (fieldsOf alg.labels rest).mac)) :
+    (Spec.ServerTsig.audit hmSpec cat cfg.payload (specKeys cfg.keys) req now (tr = .udp)
+      (toResp (handleMessage cfg tr now 65535 req)) plain).1 = [] := by
+  obtain ⟨hrM, iq, ie, il⟩ := h.scanM
+  rw [audit_eq_of_run h, hb]
+  simp only [toResp]
+  obtain ⟨nowT', kn', an, rc, mode, rr, hn', hkn', han, hrep, hfit⟩ := hrow
+  rw [h.hnow] at hn'; cases hn'
+  have hkw : kn'.wire = Tsig.lowerName kn.wire := by rw [ServerAnswer.parse_wire _ _ hkn', h.ht]; rfl
+  have haw : an.wire = Tsig.lowerName alg.wire := by rw [ServerAnswer.parse_wire _ _ han, h.ht]; rfl
+  have hkwf := parse_wf hkn'
+  obtain ⟨F, mac, hf, hG, hts, he, hmac, hh⟩ := ServerContent.signed_error_final_of_run cfg tr now 65535 req
+    (minBuf_le tr _ hp16) hpay hp16 hrM t mw r' question h.hrun nowT kn' an rc mode rr h.hnow hkn' han hrep hfit b hb
+  obtain ⟨w1, w2, w3, w4⟩ := tsigStopReply_facts hrep (parse_wf han)
+  obtain ⟨dm, hdm⟩ := ServerContent.decodes_of_good F _ hG b mac hf
+  obtain ⟨g1, g2, g3, g4, g5, g6, restR, o, q1, q2, q3, q4, q5, q6, q7⟩ :=
+    ServerContent.decoded_nodata_tsig F _ hG ⟨mode, reservedLen mode rr, rr⟩ hts w1 w3 w4 _ cfg.payload he _ hh
+      b mac hf dm hdm
+  simp only at q6 q7 g1 g2 g3
+  rw [w2] at q6
+  obtain ⟨rkn, hl1, hl2⟩ := labelsOf_of_lower o.owner kn' hkwf q6
+  have hl3 : rkn.map (·.map Spec.Tsig.lower) = kn.labels.map (·.map Spec.Tsig.lower) := by
+    rw [hl2]
+    exact (labels_lower_iff kn' kn hkwf h.hkn).mpr (by rw [hkw, lowerName_idem])
+  have hfa := fieldsAgree_of (Tsig.lowerName kn.wire) alg rest h.h10
+  rw [h.ht] at hrep
+  have hfit' : auditNeed (Spec.Server.specScan cat cfg.payload req)
+      ⟨kn.labels, fieldsOf alg.labels rest, mw.toList, modelOutcome cfg.keys nowT kn alg rest mw.toList,
+        Spec.ServerTsig.findKey (specKeys cfg.keys) kn.labels⟩ ≤
+      auditLimit (Spec.Server.specScan cat cfg.payload req) (decide (tr = .udp)) := by
+    rw [auditNeed_eq _ _ iq ie kn alg h.hkn h.halg, auditLimit_eq _ _ il tr]
+    have hkl : kn'.wire.length = kn.wire.length := by rw [hkw]; simp [Tsig.lowerName]
+    have hal : an.wire.length = alg.wire.length := by rw [haw]; simp [Tsig.lowerName]
+    rw [← reserved_of_stop cfg.keys nowT kn alg h.halg rest mw.toList kn' an hkl hal rc mode rr hrep]
+    have := (C10_audit_fits cfg tr 65535 req (minBuf_le tr _ hp16) hpay hrM mode rr).mp hfit
+    cases tr <;> exact this
+  have hlastT : dm.ar.getLast?.map (·.ty) = some 250 := by rw [q1]; simp [q3]
+  have htsF : dm.ar.filter (fun r => r.ty = 250) = [o] := by
+    rw [q1]
+    exact filter_snoc_unique (fun r : Spec.DRr => decide (r.ty = 250)) (fun r => decide (r.ty = 41)) restR o
+      (fun x hx => decide_eq_true (q2 x hx)) (fun x hx => by
+        have := of_decide_eq_true hx; simp [this]) (decide_eq_true q3)
+  have hnd : Spec.Server.noData dm = true := by
+    unfold Spec.Server.noData
+    rw [g4, g5, q1]
+    simp only [List.isEmpty_nil, Bool.true_and, List.all_eq_true]
+    intro x hx
+    rcases List.mem_append.mp hx with hx | hx
+    · simp [q2 x hx]
+    · simp only [List.mem_singleton] at hx; subst hx; simp [q3]
+  have hidd : dm.id = Spec.Server.hdr req 0 := by
+    rw [decode_id b dm hdm]
+    exact (ServerScan.response_echo cfg tr now 65535 req (minBuf_le tr _ hp16) hpay b hb).1
+  have hnow' : Spec.Tsig.nat48 nowT.asSlice = now := by
+    have := toUnix_tryFromUnix now nowT h.hnow
+    rw [← this]; simp [Spec.Tsig.nat48, TimeSigned.asSlice, TimeSigned.toUnix]; omega
+  have hoidm : (ReadTsigRr.originalId (viewRr kn alg rest)).toNat % 65536 = (fieldsOf alg.labels rest).originalId := by
+    rw [hfa.origId]; exact Nat.mod_eq_of_lt (UInt16.toNat_lt _)
+  have halgL : ∀ m : WName, m.WF → m.wire = Tsig.lowerName alg.wire →
+      m.labels.map (·.map Spec.Tsig.lower) = alg.labels.map (·.map Spec.Tsig.lower) := fun m hm hw =>
+    (labels_lower_iff m alg hm h.halg).mpr (by rw [hw, lowerName_idem])
+  have e18 : Writer.XR_BADTIME = 18 := by decide
+  have hnat : ∀ x : TimeSigned, Spec.Tsig.nat48 x.asSlice = x.toUnix := fun x => by
+    simp [Spec.Tsig.nat48, TimeSigned.asSlice, TimeSigned.toUnix]; omega
+  rcases stopReply_cases cfg.keys nowT kn alg rest mw.toList kn' an rc mode rr hrep with
+    ⟨ho, rfl, rfl, rfl⟩ | ⟨ho, rfl, ⟨a, ha, rfl⟩, rfl⟩ | ⟨ho, rfl, ⟨a, ha, rfl⟩, rfl⟩ | ⟨ho, rfl, ⟨a, key, ha, hkey, rfl⟩, rfl⟩
+  · refine auditResponse_rejected hmSpec _ _ _ _ _ _ now _ _ _ b plain dm o _ rkn hdm hfit' (by rw [ho]; decide)
+      htsF q7 hl1 hlastT q4 q5 hl3 (halgL an (parse_wf han) haw) rfl hoidm hidd (by rw [ho]; rfl) g6
+      (by rw [g1, ho]; rfl) (fun _ => by rw [hmac]; rfl) (fun hbt => by rw [ho] at hbt; cases hbt)
+      (fun _ => ⟨rfl, hnow'⟩) (fun hbt => by rw [ho] at hbt; cases hbt) hnd g3 g2
+  · refine auditResponse_rejected hmSpec _ _ _ _ _ _ now _ _ _ b plain dm o _ rkn hdm hfit' (by rw [ho]; decide)
+      htsF q7 hl1 hlastT q4 q5 hl3 (halgL _ (algName_wf _) (stop_algName alg a ha)) rfl hoidm hidd (by rw [ho]; rfl) g6
+      (by rw [g1, ho]; rfl) (fun _ => by rw [hmac]; rfl) (fun hbt => by rw [ho] at hbt; cases hbt)
+      (fun _ => ⟨rfl, hnow'⟩) (fun hbt => by rw [ho] at hbt; cases hbt) hnd g3 g2
+  · refine auditResponse_rejected hmSpec _ _ _ _ _ _ now _ _ _ b plain dm o _ rkn hdm hfit' (by rw [ho]; decide)
+      htsF q7 hl1 hlastT q4 q5 hl3 (halgL _ (algName_wf _) (stop_algName alg a ha)) rfl hoidm hidd (by rw [ho]; rfl) g6
+      (by rw [g1, ho]; rfl) (fun _ => by rw [hmac]; rfl) (fun hbt => by rw [ho] at hbt; cases hbt)
+      (fun _ => ⟨rfl, hnow'⟩) (fun hbt => by rw [ho] at hbt; cases hbt) hnd g3 g2
+  · refine auditResponse_rejected hmSpec _ _ _ _ _ _ now _ _ _ b plain dm o _ rkn hdm hfit' (by rw [ho]; decide)
+      htsF q7 hl1 hlastT q4 q5 hl3 (halgL _ (algName_wf _) (stop_algName alg a ha)) rfl hoidm hidd (by rw [ho]; rfl) g6
+      (by rw [g1, ho]; rfl) (fun hn => absurd ho hn) (fun _ => hsigned ho dm restR o _ rkn hdm q1 q7 hl1)
+      (fun hn => absurd ho hn) (fun _ => ⟨?_, ?_⟩) hnd g3 g2
+    · show (if (18 : Nat) = XR_BADTIME then nowT.asSlice else []) = Spec.Tsig.u48 now
+      rw [e18, if_pos rfl, Tsig.asSlice_eq_spec, toUnix_tryFromUnix now nowT h.hnow]
+    · show Spec.Tsig.nat48 (ReadTsigRr.timeSigned (viewRr kn alg rest)).asSlice = _
+      rw [hnat, hfa.time]; rfl
+
+open QV.ServerScan in
+/-- **audit of the unsigned rejections** (row 1 with outcome BADKEY, FORMERR or BADSIG): the audit
+    returns no tag -/
+theorem C10_audit_rejected_unsigned (cfg : Cfg) (cat : List Spec.Server.ZoneCfg) (tr : Transport) (now : Nat)
+    (req : Bytes) (hpay : 512 ≤ cfg.payload) (hp16 : cfg.payload ≤ 65535)
+    {nowT : TimeSigned} {t : ReadTsigRr} {mw : Bytes} {r' : Reader.Reader} {question : Option (WName × Nat × Nat)}
+    {d : Spec.Server.Delim} {kn alg : WName} {rest : List UInt8}
+    (h : AuditRun cfg cat tr now req nowT t mw r' question d kn alg rest)
+    (hrow : ServerContent.RowRejected cfg tr now 65535 req t mw)
+    (hu : modelOutcome cfg.keys nowT kn alg rest mw.toList ≠ .badTime)
+    (b : Bytes) (hb : handleMessage cfg tr now 65535 req = .ok (some b)) (plain : Spec.ServerTsig.Resp) :
+    (Spec.ServerTsig.audit hmSpec cat cfg.payload (specKeys cfg.keys) req now (tr = .udp)
+      (toResp (handleMessage cfg tr now 65535 req)) plain).1 = [] :=
+  audit_rejected_core cfg cat tr now req hpay hp16 h hrow b hb plain (fun hbt => absurd hbt hu)
 
 /-! ## non-vacuity: concrete instances of the hypotheses used above -/
 
